@@ -5,3 +5,83 @@ pub mod gen;
 pub mod props;
 pub mod refimpl;
 pub mod sinks;
+
+use engine::{Ctx, Tier};
+
+
+fn usage() -> ! {
+    eprintln!("usage: vcheck <ID> <quick|thorough> [--seed N] [--replay FILE]");
+    std::process::exit(2)
+}
+
+/// The command line shared by the `vcheck` and `vcheck_alloc` binaries.
+pub fn cli_main() {
+    let args: Vec<String> = std::env::args().skip(1).collect();
+    if args.is_empty() {
+        usage();
+    }
+    let id = args[0].to_uppercase();
+    if id == "C04" && args.get(1).map(|s| s.as_str()) == Some("--child") {
+        engine::install_panic_hook();
+        std::process::exit(props::c04::child_main());
+    }
+    let mut tier = match std::env::var("VERIF_TIER").as_deref() {
+        Ok("thorough") => Tier::Thorough,
+        _ => Tier::Quick,
+    };
+    let mut seed: u64 = std::env::var("VERIF_SEED")
+        .ok()
+        .and_then(|s| s.trim().parse::<i64>().ok())
+        .map(|v| v as u64)
+        .unwrap_or(0);
+    let mut replay: Option<String> = None;
+    let mut i = 1;
+    while i < args.len() {
+        match args[i].as_str() {
+            "quick" => tier = Tier::Quick,
+            "thorough" => tier = Tier::Thorough,
+            "--seed" => {
+                i += 1;
+                seed = args.get(i).and_then(|s| s.parse().ok()).unwrap_or_else(|| usage());
+            },
+            "--replay" => {
+                i += 1;
+                replay = Some(args.get(i).cloned().unwrap_or_else(|| usage()));
+            },
+            _ => usage(),
+        }
+        i += 1;
+    }
+    engine::install_panic_hook();
+    let props = props::all();
+    let Some(p) = props.iter().find(|p| p.id == id) else {
+        eprintln!("unknown property {id}");
+        std::process::exit(2);
+    };
+    let mut ctx = Ctx::new(p.id, tier, seed);
+    if let Some(path) = replay {
+        ctx.strict = true;
+        let v = match engine::read_replay(std::path::Path::new(&path)) {
+            Ok(v) => v,
+            Err(e) => {
+                println!("INCONCLUSIVE property={id} {e}");
+                std::process::exit(2);
+            },
+        };
+        let r = engine::guarded(|| (p.replay)(&ctx, &v["case"])).unwrap_or_else(Err);
+        match r {
+            Ok(()) => {
+                println!("replay {path}: property {id} holds on this case");
+                std::process::exit(0);
+            },
+            Err(what) => {
+                println!("VIOLATION property={id} replay={path}");
+                println!("  what: {}", what.replace('\n', "\n        "));
+                std::process::exit(1);
+            },
+        }
+    }
+    let rep = (p.run)(&ctx);
+    let code = engine::finish(&ctx, rep);
+    std::process::exit(code);
+}
